@@ -106,7 +106,16 @@ def mk_identity(rng, s):
 
 
 def mk_homothety(rng, s):
-    return HomothetyOperator(jnp.asarray(rng.choice(SCALARS), dtype=dtype_of(s)), s)
+    """a scalar operator: the scale is a strongly typed 0-d array of the data dtype, or — as users write `2 * A`,
+    `A / 3`, `-A` — a weakly typed Python float / int, or an integer-typed 0-d array"""
+    k = rng.random()
+    if k < 0.5:
+        return HomothetyOperator(jnp.asarray(rng.choice(SCALARS), dtype=dtype_of(s)), s)
+    if k < 0.7:
+        return HomothetyOperator(float(rng.choice(SCALARS)), s)
+    if k < 0.9:
+        return HomothetyOperator(int(rng.choice([2, 3, -1, -2, 4])), s)
+    return HomothetyOperator(jnp.asarray(rng.choice([2, 3, -1, 4]), dtype=jnp.int32), s)
 
 
 def mk_diagonal(rng, s, allow_zero=False):
@@ -192,6 +201,15 @@ def mk_index(rng, s, force_unique=None, negative=True):
             others = [p for p in rng.sample(range(n), rng.randint(0, n - 1)) if p != k0]
             idx = [k0, k0 - n] + others
             rng.shuffle(idx)
+        if force_unique is None and n >= 3 and rng.random() < 0.2:
+            # the values of a contiguous range a..b, but NOT in order (a permutation keeping the end points, or a repeat)
+            a = rng.randint(0, n - 3)
+            b = rng.randint(a + 2, n - 1)
+            mid = list(range(a + 1, b))
+            rng.shuffle(mid)
+            if rng.random() < 0.5 and mid:
+                mid[rng.randrange(len(mid))] = rng.choice([a, b] + mid)
+            idx = [a] + mid + [b]
         if force_unique is True:
             m = rng.randint(1, n)
             pos = rng.sample(range(n), m)
